@@ -15,6 +15,8 @@ def client_nontrivial(tok, res):
         return res != "nok"
     if op == "vupd":
         return res != "cfg=;run="
+    if op == "race":
+        return "*" in res
     return op in ("live", "livebackoff")
 
 
@@ -28,6 +30,12 @@ def client_class(r):
         return "ev:" + "".join(sorted(ks))
     if r.startswith("cfg="):
         return "visitors"
+    if r.startswith("w="):
+        # overlapping operations: was a message held, and did the other side have to wait for its sender's lock
+        f = dict(x.split("=", 1) for x in r.split(";") if "=" in x)
+        if "*" not in f.get("w", ""):
+            return "race:nothing-held"
+        return "race:held," + ("holder-stopped" if f.get("a") == "closed" else "holder-alive")
     return "other"
 
 
@@ -79,6 +87,16 @@ PROP = {
             "Frp.C19.update_new_wrappers",
             "Frp.C19.update_changed_gone",
             "Frp.C19.update_running_cfgs",
+            "Frp.C19.conc_refines",
+            "Frp.C19.conc_quiescent_atomic",
+            "Frp.C19.conc_lock_excludes",
+            "Frp.C19.conc_no_newProxy_after_stop",
+            "Frp.C19.conc_sync",
+            "Frp.C19.race_schedule_wire",
+            "Frp.C19.earlyUnlock_witness",
+            "Frp.C19.earlyUnlock_not_quiet",
+            "Frp.C19.raceSyncOK_of_Sync",
+            "Frp.C19.raceStopOK_of_last",
             "Frp.C19.reload_dup_witness",
             "Frp.C19.not_ReloadIdempotentFull_old",
             "Frp.C19.reload_dup_runs_first",
@@ -99,9 +117,11 @@ PROP = {
         "rule": "health engine: probe-outcome histories against the real health.Monitor (n = number of probes); non-trivial = "
                 "a history on which the failed callback fired. client engine: reload / tick / reply / health / work-connection "
                 "histories against the real proxy.Manager and its Wrappers; non-trivial = the op produced a message, a status "
-                "change, a hand-over or hit a stopped wrapper; distinct = distinct (op line, result) pairs",
+                "change, a hand-over or hit a stopped wrapper; for `race` (two overlapping operations, the first one held in the "
+                "transporter at the hand-over of its NewProxy/CloseProxy) non-trivial = a message was actually held; "
+                "distinct = distinct (op line, result) pairs",
         "trusted": COMMON_TRUST + [
-            "models Frp/Model/Health.lean, Wrapper.lean, Reconcile.lean written by hand; tied by the engines health "
+            "models Frp/Model/Health.lean, Wrapper.lean, WrapperConc.lean, Reconcile.lean written by hand; tied by the engines health "
             "(real health.Monitor + scripted HTTP/TCP backend) and client (real proxy.Manager/Wrapper/visitor.Manager, "
             "capturing MessageTransporter)",
             "verif hooks client/proxy/verif_export.go, client/health/verif_export.go, client/visitor/verif_export.go "
@@ -113,7 +133,12 @@ PROP = {
             "one real-time scenario each covers the back-off (livebackoff) and wrapper+monitor+listener (live)",
             "quiescence of the worker goroutines is observed through runtime.Stack",
             "TCP probes: only up/down/up with a real listener (htcp); the counting logic is exercised through HTTP probes",
-            "goroutine interleavings of Stop with a concurrently running worker iteration are not enumerated (both take pw.mu)",
+            "goroutine interleavings inside one wrapper are proved for ALL schedules on the small-step model WrapperConc "
+            "(statement granularity: lock, phase write, hand-over to pw.handler, unlock); on the real code they are driven at the "
+            "one point reachable without touching frp — a gate in the harness' MessageTransporter that holds the first "
+            "NewProxy/CloseProxy of an operation just before it is on the wire while a second operation runs until it has "
+            "finished or its goroutine is blocked (runtime.Stack); other preemption points (between Lock() and the phase test, "
+            "between two statements that do not call the handler) are not driven, InWorkConn/GetStatus are not in the small-step model",
             "visitor reload is compared against a small model in the engine (configured / running names) without theorems; "
             "visitor.Manager.UpdateAll still starts the first and compares with the last entry of a duplicated visitor name",
         ],
@@ -122,15 +147,21 @@ PROP = {
 META = {
         "engine": "lean+harness(health,client)",
         "design_ref": "DESIGN.md §6 C19, §7 item 8",
-        "technique": "Lean 4 models of health counting, wrapper phase machine and reload diff; theorems by induction over all probe "
-                     "histories / event sequences / reloads; differential correspondence with the real health.Monitor and "
-                     "proxy.Manager/Wrapper; property predicates evaluated on the implementation's answers",
+        "technique": "Lean 4 models of health counting, wrapper phase machine (atomic and small-step with pw.mu) and reload diff; "
+                     "theorems by induction over all probe histories / event sequences / reloads / goroutine schedules; differential "
+                     "correspondence with the real health.Monitor and proxy.Manager/Wrapper, including overlapping operations with a "
+                     "message held in the transporter; property predicates evaluated on the implementation's answers",
         "text": "Proof (two findings, both repaired in /repo: 75a9f5a and eab68f8). Health: the pinned monitor never reset failedTimes, so "
                 "withdrawal happened after maxFailed failures in total, not in a row (kernel-checked witness, reproduced on the real "
                 "Monitor before the fix); the machine as it is now (HealthFixed) satisfies the full statement withdraw_iff_consecutive. Wrapper: for every event sequence the status "
                 "moves only along legal edges, a stopped wrapper sends nothing and accepts nothing, work connections are handed "
                 "over iff running, a start error is retried exactly after the back-off and is never absorbing, nothing is "
-                "registered before the first successful probe, status and the server's view stay in step. Reload: running names = "
+                "registered before the first successful probe, status and the server's view stay in step. Goroutines: every interleaving "
+                "of the worker iteration (health load outside the lock, phase write and hand-over of the message inside), Stop, "
+                "SetRunningStatus and the monitor callbacks is a sequential run of that machine in lock order (conc_refines), hence on "
+                "the wire nothing but CloseProxy follows once Stop has written closed (conc_no_newProxy_after_stop) and the last message "
+                "agrees with the status at every quiescent point (conc_sync); the variant that unlocks before handing NewProxy over "
+                "violates both (earlyUnlock_witness). Reload: running names = "
                 "configured names, unchanged entries keep the same wrapper object with no message, removed/changed ones get exactly "
                 "one CloseProxy, added ones exactly one NewProxy (none if health-gated), every running wrapper carries the configured "
                 "(last) entry of its name, and reloading the loaded configuration is a no-op for EVERY configuration list "
@@ -138,5 +169,6 @@ META = {
                 "re-registered on every identical reload (witness reload_dup_witness about updateAllOld, reproduced on the real "
                 "Manager before the fix).",
         "note": "Trusted: Lean kernel; the hand-written models and the correspondence harness. Not covered: real-time behaviour beyond "
-                "two scenarios, TCP probe timeouts, visitor restart loop (keepVisitorsRunning), Stop racing a worker iteration.",
+                "two scenarios, TCP probe timeouts, visitor restart loop (keepVisitorsRunning), preemption points of the wrapper other than the "
+                "hand-over of a message to the transporter.",
     }
